@@ -9,7 +9,7 @@ from vlib import C, JOBS, Raw, coq_eval_cases, rng_for, run_impl_worker
 IMPORTS = "Base.Prelude Model.Clean"
 TRUSTED = ["Coq kernel, vm_compute", "pathlib.PurePath.match for literal/*/? patterns as modelled", "git ls-files / rev-parse as queried by the code",
            "harness (project generator, tree scans)"]
-NAMES = ["a.txt", "b.log", "data", "build", "notes.md", "x", "tmp", "out", "keep.log", "src"]
+NAMES = ["a.txt", "b.log", "data", "build", "notes.md", "x", "tmp", "out", "keep.log", "src", "café.csv", 'say "hi".md', "sp ace.txt"]
 TASK = '''from pathlib import Path
 from typing import Annotated
 from pytask import Product
@@ -47,6 +47,14 @@ def gen_case(rng):
         prods = [p for p in prods if p not in dirs and not any(p.startswith(f + "/") for f in files)]
         args = [f"d{j}: Path = ROOT / {d!r}" for j, d in enumerate(deps)] + \
                [f"p{j}: Annotated[Path, Product] = ROOT / {p!r}" for j, p in enumerate(prods)]
+        if rng.random() < 0.5:
+            # nodes inside nested containers are known to pytask as well
+            nested = [f"nest/n{i}{j}.txt" for j in range(3)]
+            args.append("produces={'a': ROOT / %r, 'b': [ROOT / %r, {'c': ROOT / %r}]}" % tuple(nested))
+            prods = prods + nested
+            for q in nested:
+                if rng.random() < 0.7:
+                    files[q] = "nested"
         mod = rng.choice(["", "src/"]) + f"task_m{i}.py"
         if mod.startswith("src/") and "src" in files:
             mod = f"task_m{i}.py"
@@ -71,6 +79,12 @@ def gen_case(rng):
     git = rng.random() < 0.5
     proj_rel = rng.choice(["", "", "sub"]) if git else ""
     git_add = []
+    if git and rng.random() < 0.4:
+        # names git would quote without -z
+        special = rng.choice(["data/café.csv", 'say "hi".md', "übersicht.txt"])
+        if not any(special.startswith(f + "/") for f in files) and special.split("/")[0] not in files:
+            files[special] = "tracked"
+            git_add.append((proj_rel + "/" if proj_rel else "") + special)
     if git:
         for f in sorted(files):
             if not f.startswith(".pytask") and rng.random() < 0.35:
